@@ -686,12 +686,49 @@ func (E *Engine) solveOne(r *FuncResult, o *Obligation, dir string, sem chan str
 	}
 	o.Status = "failed"
 	var sb strings.Builder
+	satBy := ""
 	for _, res := range all {
 		sb.WriteString(fmt.Sprintf("%s: %s (%.2fs)\n", res.Solver, res.Status, res.Secs))
 		if res.Status == "sat" && o.Solver == "" {
 			o.Solver = res.Solver
+			satBy = strings.TrimSuffix(res.Solver, "(retry)")
 		}
 		o.Secs += res.Secs
+	}
+	candidate := "a model of the negated obligation"
+	if satBy == "" {
+		// z3 answers unknown on a satisfiable goal with quantified prelude axioms, and still has a candidate
+		// model of the ground part
+		for _, res := range all {
+			if res.Status == "unknown" && strings.HasPrefix(res.Solver, "z3-new") && res.Secs < 2 {
+				satBy = strings.TrimSuffix(res.Solver, "(retry)")
+				candidate = "the candidate model the solver had when it answered unknown (it satisfies the ground part of the negated obligation; the quantified axioms are not all checked)"
+				break
+			}
+		}
+	}
+	if satBy != "" && satBy != "cvc5" {
+		// a solver found a model of the negated obligation: print the values it gives to the parameters
+		mf := f + ".model.smt2"
+		if b, err := os.ReadFile(f); err == nil {
+			writeFile(mf, string(b)+"(get-model)\n")
+			res := runSolver(satBy, mf, qt)
+			var keep []string
+			lines := strings.Split(res.Out, "\n")
+			for i := 0; i < len(lines); i++ {
+				if strings.Contains(lines[i], "(define-fun p_") || strings.Contains(lines[i], "(define-fun |p_") {
+					keep = append(keep, strings.TrimSpace(lines[i]))
+					if i+1 < len(lines) {
+						keep = append(keep, "    "+strings.TrimSpace(lines[i+1]))
+					}
+				}
+			}
+			if len(keep) > 80 {
+				keep = keep[:80]
+			}
+			sb.WriteString("\ncandidate counterexample, parameter values in " + candidate + ":\n" + strings.Join(keep, "\n") + "\n")
+			os.Remove(mf)
+		}
 	}
 	o.Model = sb.String()
 }
